@@ -47,6 +47,10 @@ def ubxStep (acc : Parser × List String) (op : String) : Parser × List String 
   | ['K'] => let (r, p') := p.packet; (p', out ++ [match r with | some x => showPacket x | none => "none"])
   | ['D'] => ({ p with queue := [] }, out ++ p.queue.map showPacket ++ ["."])
   | ['R'] => (p.restart, out)
+  | 'Z' :: r =>       -- one process() call over a lazy source that calls restart() between its two parts
+      (match (String.mk r).splitOn "~" with
+       | [a, b] => (((p.process (parseHex a)).restart).process (parseHex b), out)
+       | _ => (p, out ++ ["bad-op"]))
   | 'T' :: _ => (p, out)                  -- time passing between two calls: no part of the parser's state
   | 'C' :: _ => (p, out)                  -- the history goes on with a copy of the parser (deepcopy, copy, pickle): the same value
   | 'H' :: c => (p.setFilters (parseCids (String.mk c)), out)     -- set_filters with the list object passed before, changed in place
@@ -81,6 +85,10 @@ def runNmea (ops : String) : String :=
     match feedOp op with
     | 'P' :: h => p.process (parseHex (String.mk h))
     | ['R'] => p.restart
+    | 'Z' :: r =>
+        (match (String.mk r).splitOn "~" with
+         | [a, b] => ((p.process (parseHex a)).restart).process (parseHex b)
+         | _ => p)
     | _ => p
   let p := (ops.splitOn ";").foldl step {}
   s!"rx={p.framesRx}"
@@ -485,7 +493,7 @@ def runFromKey (k v : String) : String :=
 def runKeyTab (ops : String) : String :=
   let step (acc : List (Nat × String × Bool) × List String) (op : String) : List (Nat × String × Bool) × List String :=
     let (tbl, out) := acc
-    match op.toList with
+    match (match op.toList with | 'W' :: r => 'T' :: r | l => l) with      -- W: the same change by installing a new table object
     | 'T' :: r =>
         (match (String.mk r).splitOn ":" with
          | [k, "-"] => (tbl.filter (fun e => e.1 != k.toNat!), out)
@@ -715,8 +723,10 @@ def runGpsdTx (dev data reply : String) : String :=
 /-- `cid|c:i`: `UbxCID` equality, membership, hash and dictionary lookup against the grid the harness uses — in the model
     a class/id is a pair with decidable equality -/
 def cidGrid : List Cid :=
-  ([0, 1, 2, 3, 4, 5, 6, 8, 0x0a, 0x0c, 0x10, 0x13, 0x14, 0x28, 0x62, 0xb5, 0xff] : List Nat).flatMap fun c =>
-    ([0, 1, 2, 3, 4, 7, 8, 9, 0x10, 0x14, 0x3e, 0x60, 0x62, 0xff] : List Nat).map fun i => ⟨c, i⟩
+  (([0, 1, 2, 3, 4, 5, 6, 8, 0x0a, 0x0c, 0x10, 0x13, 0x14, 0x28, 0x62, 0xb5, 0xff] : List Nat).flatMap fun c =>
+    ([0, 1, 2, 3, 4, 7, 8, 9, 0x10, 0x14, 0x3e, 0x60, 0x62, 0xff] : List Nat).map fun i => ⟨c, i⟩)
+  -- numbers that do not fit a byte (a 16-bit message number not masked): they are what they are, never another class/id
+  ++ [⟨5, 0x501⟩, ⟨0x105, 1⟩, ⟨1, 0x407⟩, ⟨0, 0x100⟩, ⟨1, 0x100⟩, ⟨0x100, 0⟩, ⟨5, 0x10001⟩, ⟨0x605, 0x801⟩]
 def runCid (arg : String) : String :=
   let a := parseCid arg
   let eqs := ",".intercalate ((cidGrid.filter (· == a)).map fun b => s!"{b.cls}:{b.id}")
@@ -736,6 +746,7 @@ def handle (line : String) : String :=
   | ["specscan", h] => runSpecScan h
   | "seq" :: rest => runSeq rest
   | ["fields", c, pl] => runFields c pl
+  | ["fieldscopy", c, pl1, pl2, _] => runFields c pl2 ++ " ## " ++ runFields c pl1      -- a frame and its copy are two values
   | ["ch", n, d] => runCh n.toNat! (parseHex d)
   | ["keytab", ops] => runKeyTab ops
   | ["subitem", _, f, v] => runSubItem f (parseInt v)
